@@ -14,11 +14,16 @@ TIERS = {
     "C04": T(2000, 30000),
     "C05": T(700, 12000),
     "C06": T(1500, 20000),
+    "C07": T(1200, 15000),
+    "C08": T(1200, 15000),
     "C09": T(900, 15000),
     "C12": T(2500, 40000),
     "C13": T(1200, 12000),
     "C14": T(1500, 12000),
     "C15": T(900, 15000),
+    "C16": T(800, 10000),
+    "C17": T(1200, 15000, flavours=["plain"], extra="valgrind",
+             valgrind={"quick": {"cases": 40, "workers": 8, "size": 60}, "thorough": {"cases": 600, "workers": 16, "size": 80}}),
     "C18": T(2500, 40000),
     "C19": T(2000, 20000),
     "C20": T(1000, 15000),
@@ -51,6 +56,21 @@ ASSUMPTIONS = {
             "MSG_VENDOR: consumed when its key is the CV of a configured reverser of the sending board, otherwise a message-queue message",
             "payloads are well-formed (harness/traffic.hpp); malformed messages are C12's domain",
             "the concurrent-reader phase stays below the 128 bound (an overflow racing a pop has no single expected result)"],
+    "C07": ["the fold starts from the snapshot the library reports after startup; from then on the reference is folded independently",
+            "state is compared at quiescent moments (receiver drained, twice polled empty)",
+            "an unmapped aspect is rendered as 'unknown' by all getters; that string is part of the reference",
+            "not generated (counted): BOOST_STAT codes other than 0x00/0x01/0x02/0x04/0x05/0x80/0x84, bitmaps reaching detector 255, drive function1 values > 31 (reserved bits)",
+            "the simulated bus is silent after startup, so optimistic values of user commands are not overwritten by acknowledgements unless generated"],
+    "C08": ["one message per packet: an 'instant' is a message boundary",
+            "a concurrent getter result must match some boundary whose interval [message injected, next message settled] overlaps the call window",
+            "the same decoder address is listed at most once per MSG_BM_ADDRESS (counted exclusion)"],
+    "C16": ["all sessions of a case run in one forked process and one virtual world; the bus simulator is re-created from the same template for every session",
+            "shutdown transcript = downlink bytes between the call and the return of bidib_stop, after the harness flushed and waited for quiescence",
+            "the drive messages of the shutdown are recognised by speed 0 (direction bit ignored) and all four function bytes 0; the 'active' byte is not asserted",
+            "session equivalence compares decoded startup transcripts, raw probe bytes (9 x 23-byte messages to node 0x55) and the rendered snapshot"],
+    "C17": ["every result is read completely (all fields, all strings and arrays) after the later state changes and - in half of the cases - after bidib_stop, then freed exactly once",
+            "Memcheck part: uninstrumented -O0 build (flavour plain) of the same property under valgrind; VALGRIND_CHECK_MEM_IS_DEFINED per field, never on padding",
+            "snapshot and single getters are compared at a quiescent moment (receiver drained)"],
     "C12": ["the stream is delivered through the read callback with generated poll gaps; only streams up to ~40 items / 700-byte oversized packets",
             "liveness = at least one of two well-formed probe packets sent after the stream is delivered (a packet directly behind line noise may be merged into the corrupted fragment)",
             "sanitizer-visible memory errors only (ASan + UBSan, G_SLICE=always-malloc)"],
